@@ -221,8 +221,33 @@ def tlc_coverage(out):
     return cov
 
 
-def tlc_check(module, cfg, workers=8, timeout=1500, coverage=True, heap="8g", extra=None, env=None):
-    """exhaustive design check; returns dict(ok, stats, coverage, out)"""
+def _spec_hash(module, cfg, extra):
+    h = hashlib.sha1()
+    for f in sorted(os.listdir(SPEC)):
+        if f.endswith(".tla"):
+            h.update(open(os.path.join(SPEC, f), "rb").read())
+    h.update(open(os.path.join(SPEC, cfg), "rb").read())
+    h.update(repr((module, cfg, extra)).encode())
+    return h.hexdigest()[:20]
+
+
+def tlc_check(module, cfg, workers=8, timeout=1500, coverage=True, heap="8g", extra=None, env=None, cache=True):
+    """exhaustive design check; returns dict(ok, stats, coverage, out).  The result depends only on the
+    specification files, so it is cached by their hash (the implementation under /repo plays no part)."""
+    cdir = os.path.join(SCRATCH, "mc-cache")
+    os.makedirs(cdir, exist_ok=True)
+    cf = os.path.join(cdir, _spec_hash(module, cfg, extra) + ".json")
+    if cache and os.path.exists(cf) and not os.environ.get("VERIF_NO_MC_CACHE"):
+        r = json.load(open(cf))
+        r["cached"] = True
+        return r
+    r = _tlc_check(module, cfg, workers, timeout, coverage, heap, extra, env)
+    if cache and r["ok"]:
+        json.dump(r, open(cf, "w"))
+    return r
+
+
+def _tlc_check(module, cfg, workers=8, timeout=1500, coverage=True, heap="8g", extra=None, env=None):
     md = tempfile.mkdtemp(prefix="tlc-", dir=SCRATCH)
     args = ["-workers", str(workers), "-metadir", md, "-config", cfg]
     if coverage:
@@ -297,7 +322,9 @@ def tlc_validate(module, cfg, trace_events, timeout=1500, heap="8g", keep_trace=
     accepted = rc == 0 and matched == len(trace_events)
     if "TLC threw an unexpected exception" in out or "Parsing or semantic analysis failed" in out or \
        ("Error:" in out and "is violated" not in out and not m and "Postcondition" not in out):
-        raise InfraError("TLC could not evaluate the trace spec %s:\n%s" % (module, out[-3500:]))
+        open(os.path.join(SCRATCH, "last_tlc_error.txt"), "w").write(out)
+        i = out.find("Error:")
+        raise InfraError("TLC could not evaluate the trace spec %s (full output in %s/last_tlc_error.txt):\n%s" % (module, SCRATCH, out[i:i + 1500]))
     if rc != 0 and matched < 0:
         # invariant violated along the trace, or evaluation error: find how far we got
         m2 = re.findall(r"^State (\d+):", out, flags=re.M)
@@ -336,7 +363,11 @@ def validate_execs(module, cfg, traces, max_rejects=25, env=None, label="", head
         badx, idx = owner[matched]
         pos = [i for i, (x, _) in enumerate(todo) if x == badx][0]
         accepted += [x for x, _ in todo[:pos]]
-        tail = out[-1500:]
+        fails = [ln for ln in out.splitlines() if "FAILED" in ln]
+        # conjuncts that rejected the first unexplained line (trace line numbers are 1-based; +1 for a header)
+        want = matched + 1 + (1 if header is not None else 0)
+        mine = [ln for ln in fails if ln.rstrip().endswith(", %d>>" % want)]
+        tail = "rejected by: " + "; ".join(mine[-6:]) + "\n" + out[-700:]
         rejected.append((badx, idx, tail))
         todo = todo[pos + 1:]
         if len(rejected) >= max_rejects:
@@ -418,10 +449,20 @@ def run_validate(bld, execs, module, cfg, np=1, shim=False, san=False, env=None,
         if r["status"] == "driver_error":
             bad = [s for s in r["steps"] if any(e.get("rc") == "DRIVER_ERROR" for e in s["rk"])]
             raise InfraError("driver error in %s: %s" % (ex["x"], json.dumps(bad[0])[:3000]))
+        r["events"] = ev
         traces.append((ex["x"], ev))
+    acc, rej, states = validate_traces(traces, module, cfg, chunk, tlc_env, header, tag)
+    log("%s: validated: %d accepted, %d rejected" % (tag, len(acc), len(rej)))
+    return res, acc, rej, states
+
+
+def validate_traces(traces, module, cfg, chunk=200, tlc_env=None, header=None, tag="v", max_rejects=None):
+    """validate [(x, events)] in parallel chunks; isolates up to max_rejects rejections"""
     acc, rej, states = [], [], 0
     lock = threading.Lock()
-    budget = [MAX_REJECTS]
+    if max_rejects is None:
+        max_rejects = MAX_REJECTS
+    budget = [max_rejects]
 
     def one(ch):
         with lock:
@@ -440,9 +481,8 @@ def run_validate(bld, execs, module, cfg, np=1, shim=False, san=False, env=None,
             states += st
             unexamined += un
     if unexamined:
-        log("%s: %d executions left unexamined after %d rejections (budget %d)" % (tag, unexamined, len(rej), MAX_REJECTS))
-    log("%s: validated: %d accepted, %d rejected" % (tag, len(acc), len(rej)))
-    return res, acc, rej, states
+        log("%s: %d executions left unexamined after %d rejections (budget %d)" % (tag, unexamined, len(rej), max_rejects))
+    return acc, rej, states
 
 
 def confirm(bld, execs, rej, module, cfg, **kw):
@@ -454,6 +494,7 @@ def confirm(bld, execs, rej, module, cfg, **kw):
     kw = dict(kw)
     kw["par"] = 4
     kw["tag"] = "confirm"
+    kw["chunk"] = 1          # one validation per execution: every re-run gets its own verdict
     res2, acc2, rej2, _ = run_validate(bld, again, module, cfg, **kw)
     rej2x = {x: (i, t) for x, i, t in rej2}
     out = []
